@@ -109,49 +109,52 @@ def run_dag(ctx, n, tiny):
     import flowpaths as fp
     stream = "lae-tiny" if tiny else "lae"
     for i in range(n):
-        rng = ctx.rng(stream, i)
-        args, info = gen2.rand_err_args(rng, "lae", tiny=tiny, force_int=True if tiny else None)
-        k = rng.choice([1, 2, 2, 3]) if not tiny else rng.choice([1, 1, 2, 2, 3])
-        args = dict(args, k=k, solver_options=dict(errlib.SOLVER))
-        exact = args["weight_type"] == int
-        lpdump.reset()
-        try:
-            m = fp.kLeastAbsErrors(**errlib.clean_args(args))
-        except (ValueError, OverflowError) as e:
-            ctx.dist("ctor " + type(e).__name__); continue
-        option_hist(ctx, args)
-        impl, d = e1_case(ctx, m, args)
-        try:
-            m.solve()
-        except Exception as e:
-            ctx.report("kLeastAbsErrors.solve() raised " + repr(e), {"class": "kLeastAbsErrors", "args": errlib.describe(args)}); continue
-        status = m.solver.get_model_status()
-        cons = args.get("subpath_constraints")
-        nontriv = len(impl["rows"]) > 8
-        if not m.is_solved():
-            ctx.count("E2_recompute", "unsolved:" + str(status))
-            if status == "kInfeasible" and not cons:
-                # without subpath constraints every k >= 1 is feasible (klae_enc_complete: any k paths, zero weights)
-                errlib.report(ctx, "kLeastAbsErrors is infeasible although there are no subpath constraints",
-                              {"class": "kLeastAbsErrors", "args": errlib.describe(args), "status": status}, "kLeastAbsErrors", args, m)
-        else:
-            ctx.count("E2_recompute", "solved")
-            so = check_solution(ctx, "kLeastAbsErrors", args, m, exact)
-            if tiny and so is not None and args.get("flow_attr_origin", "edge") == "edge" and not cons:
-                el = errlib.elements_edge(args)
-                paths = errlib.st_paths(args["G"], args.get("additional_starts", ()), args.get("additional_ends", ()))
-                given = args.get("solution_weights_superset")
-                best = errlib.brute_lae(args, m.k, paths, el, given=given, k_orig=m.original_k)
-                if best is None:
-                    ctx.count("E2_exhaustive_optimum", "skipped_too_large")
-                elif abs(float(best) - so) > 1e-6:
-                    errlib.report(ctx, f"kLeastAbsErrors objective {so} differs from the exhaustive optimum {best} over k-tuples of paths and integer weights <= max f",
-                                  {"class": "kLeastAbsErrors", "args": errlib.describe(args), "solver_objective": so, "exhaustive_optimum": str(best)},
-                                  "kLeastAbsErrors", args, m)
-                else:
-                    ctx.count("E2_exhaustive_optimum", "agreements")
-        ctx.case(["lae", tiny, errlib.describe(args)], nontrivial=nontriv,
-                 sample={"edges": errlib.describe(args)["edges"], "k": k, "options": {o: str(v) for o, v in args.items() if o not in ("G", "solver_options", "k")}})
+        def _one(cur):
+            rng = ctx.rng(stream, i)
+            args, info = gen2.rand_err_args(rng, "lae", tiny=tiny, force_int=True if tiny else None)
+            k = rng.choice([1, 2, 2, 3]) if not tiny else rng.choice([1, 1, 2, 2, 3])
+            args = dict(args, k=k, solver_options=dict(errlib.SOLVER))
+            cur["args"] = args
+            exact = args["weight_type"] == int
+            lpdump.reset()
+            try:
+                m = fp.kLeastAbsErrors(**errlib.clean_args(args))
+            except (ValueError, OverflowError) as e:
+                ctx.dist("ctor " + type(e).__name__); return
+            option_hist(ctx, args)
+            impl, d = e1_case(ctx, m, args)
+            try:
+                m.solve()
+            except Exception as e:
+                ctx.report("kLeastAbsErrors.solve() raised " + repr(e), {"class": "kLeastAbsErrors", "args": errlib.describe(args)}); return
+            status = m.solver.get_model_status()
+            cons = args.get("subpath_constraints")
+            nontriv = len(impl["rows"]) > 8
+            if not m.is_solved():
+                ctx.count("E2_recompute", "unsolved:" + str(status))
+                if status == "kInfeasible" and not cons:
+                    # without subpath constraints every k >= 1 is feasible (klae_enc_complete: any k paths, zero weights)
+                    errlib.report(ctx, "kLeastAbsErrors is infeasible although there are no subpath constraints",
+                                  {"class": "kLeastAbsErrors", "args": errlib.describe(args), "status": status}, "kLeastAbsErrors", args, m)
+            else:
+                ctx.count("E2_recompute", "solved")
+                so = check_solution(ctx, "kLeastAbsErrors", args, m, exact)
+                if tiny and so is not None and args.get("flow_attr_origin", "edge") == "edge" and not cons:
+                    el = errlib.elements_edge(args)
+                    paths = errlib.st_paths(args["G"], args.get("additional_starts", ()), args.get("additional_ends", ()))
+                    given = args.get("solution_weights_superset")
+                    best = errlib.brute_lae(args, m.k, paths, el, given=given, k_orig=m.original_k)
+                    if best is None:
+                        ctx.count("E2_exhaustive_optimum", "skipped_too_large")
+                    elif abs(float(best) - so) > 1e-6:
+                        errlib.report(ctx, f"kLeastAbsErrors objective {so} differs from the exhaustive optimum {best} over k-tuples of paths and integer weights <= max f",
+                                      {"class": "kLeastAbsErrors", "args": errlib.describe(args), "solver_objective": so, "exhaustive_optimum": str(best)},
+                                      "kLeastAbsErrors", args, m)
+                    else:
+                        ctx.count("E2_exhaustive_optimum", "agreements")
+            ctx.case(["lae", tiny, errlib.describe(args)], nontrivial=nontriv,
+                     sample={"edges": errlib.describe(args)["edges"], "k": k, "options": {o: str(v) for o, v in args.items() if o not in ("G", "solver_options", "k")}})
+        errlib.guarded(ctx, 'kLeastAbsErrors', f"{stream}#{i}", _one)
 
 
 def rand_cyclic_err(rng):
@@ -187,38 +190,41 @@ def rand_cyclic_err(rng):
 def run_cyclic(ctx, n):
     import flowpaths as fp
     for i in range(n):
-        rng = ctx.rng("lae-cyc", i)
-        args, is_int = rand_cyclic_err(rng)
-        k = rng.choice([1, 2, 2, 3])
-        args = dict(args, k=k, solver_options=dict(errlib.SOLVER))
-        try:
-            m = fp.kLeastAbsErrorsCycles(**errlib.clean_args(args)); m.solve()
-        except (ValueError, OverflowError) as e:
-            ctx.dist("cyc ctor " + type(e).__name__); continue
-        except Exception as e:
-            ctx.report("kLeastAbsErrorsCycles raised " + repr(e), {"class": "kLeastAbsErrorsCycles", "args": errlib.describe(args)}); continue
-        option_hist(ctx, args)
-        if m.is_solved():
-            ctx.count("E2_recompute_cycles", "solved")
-            check_solution(ctx, "kLeastAbsErrorsCycles", args, m, is_int, eng="E2_recompute_cycles")
-        else:
-            st = m.solver.get_model_status()
-            ctx.count("E2_recompute_cycles", "unsolved:" + str(st))
-            if st == "kInfeasible":
-                # without constraints every k >= 1 admits k walks with zero weights; the only known obstacle is the
-                # repetition cap derived from the weights: re-solve with all weights multiplied by a large constant
-                why = errlib.solver_disagrees("kLeastAbsErrorsCycles", args, m)
-                if why:
-                    ctx.count("solver_specification", "highs_answers_depend_on_presolve")     # solver defect (DESIGN 10.4), not reported
-                    ctx.case(["lae-cyc", errlib.describe(args)], nontrivial=G_has_cycle(args["G"])); continue
-                verdict, c = errlib.rescale_feasible("kLeastAbsErrorsCycles", args)
-                if verdict == "inconclusive":
-                    ctx.count("E2_recompute_cycles", "infeasible_diagnosis_inconclusive(time limit)")
-                else:
-                    ctx.report("kLeastAbsErrorsCycles is infeasible although there are no subset constraints",
-                               {"class": "kLeastAbsErrorsCycles", "args": errlib.describe(args), "feasible_after_scaling_by": c},
-                               key=K_CAP if verdict == "feasible" else None)
-        ctx.case(["lae-cyc", errlib.describe(args)], nontrivial=G_has_cycle(args["G"]))
+        def _one(cur):
+            rng = ctx.rng("lae-cyc", i)
+            args, is_int = rand_cyclic_err(rng)
+            k = rng.choice([1, 2, 2, 3])
+            args = dict(args, k=k, solver_options=dict(errlib.SOLVER, time_limit=8))   # random cyclic instances: a hard MILP is counted as unsolved:kTimeLimit, not waited for
+            cur["args"] = args
+            try:
+                m = fp.kLeastAbsErrorsCycles(**errlib.clean_args(args)); m.solve()
+            except (ValueError, OverflowError) as e:
+                ctx.dist("cyc ctor " + type(e).__name__); return
+            except Exception as e:
+                ctx.report("kLeastAbsErrorsCycles raised " + repr(e), {"class": "kLeastAbsErrorsCycles", "args": errlib.describe(args)}); return
+            option_hist(ctx, args)
+            if m.is_solved():
+                ctx.count("E2_recompute_cycles", "solved")
+                check_solution(ctx, "kLeastAbsErrorsCycles", args, m, is_int, eng="E2_recompute_cycles")
+            else:
+                st = m.solver.get_model_status()
+                ctx.count("E2_recompute_cycles", "unsolved:" + str(st))
+                if st == "kInfeasible":
+                    # without constraints every k >= 1 admits k walks with zero weights; the only known obstacle is the
+                    # repetition cap derived from the weights: re-solve with all weights multiplied by a large constant
+                    why = errlib.solver_disagrees("kLeastAbsErrorsCycles", args, m)
+                    if why:
+                        ctx.count("solver_specification", "highs_answers_depend_on_presolve")     # solver defect (DESIGN 10.4), not reported
+                        ctx.case(["lae-cyc", errlib.describe(args)], nontrivial=G_has_cycle(args["G"])); return
+                    verdict, c = errlib.rescale_feasible("kLeastAbsErrorsCycles", args)
+                    if verdict == "inconclusive":
+                        ctx.count("E2_recompute_cycles", "infeasible_diagnosis_inconclusive(time limit)")
+                    else:
+                        ctx.report("kLeastAbsErrorsCycles is infeasible although there are no subset constraints",
+                                   {"class": "kLeastAbsErrorsCycles", "args": errlib.describe(args), "feasible_after_scaling_by": c},
+                                   key=K_CAP if verdict == "feasible" else None)
+            ctx.case(["lae-cyc", errlib.describe(args)], nontrivial=G_has_cycle(args["G"]))
+        errlib.guarded(ctx, 'kLeastAbsErrorsCycles', f"lae-cyc#{i}", _one)
 
 
 def run_family(ctx):
@@ -228,33 +234,36 @@ def run_family(ctx):
     import flowpaths as fp
     for fam in errlib.cyclic_families():
         for k in fam["k_list"]:
-            if k is None:
-                continue
-            args = dict(G=fam["G"], flow_attr="flow", k=k, weight_type=fam["weight_type"], solver_options=dict(errlib.SOLVER))
-            rep = {"class": "kLeastAbsErrorsCycles", "family": fam["name"], "args": errlib.describe(args), "closed_form_optimum": str(fam["lae_opt"])}
-            try:
-                m = fp.kLeastAbsErrorsCycles(**errlib.clean_args(args)); m.solve()
-            except Exception as e:
-                ctx.report(f"kLeastAbsErrorsCycles raised {e!r} on family instance {fam['name']}", rep); continue
-            ctx.case(["lae-family", fam["name"], k], nontrivial=True)
-            st = m.solver.get_model_status()
-            if not m.is_solved():
-                if st == "kInfeasible":
-                    errlib.report(ctx, f"kLeastAbsErrorsCycles is infeasible on '{fam['name']}' (k={k}); k walks with zero weights exist within every repetition cap", rep,
+            def _one(cur):
+                if k is None:
+                    return
+                args = dict(G=fam["G"], flow_attr="flow", k=k, weight_type=fam["weight_type"], solver_options=dict(errlib.SOLVER))
+                cur["args"] = args
+                rep = {"class": "kLeastAbsErrorsCycles", "family": fam["name"], "args": errlib.describe(args), "closed_form_optimum": str(fam["lae_opt"])}
+                try:
+                    m = fp.kLeastAbsErrorsCycles(**errlib.clean_args(args)); m.solve()
+                except Exception as e:
+                    ctx.report(f"kLeastAbsErrorsCycles raised {e!r} on family instance {fam['name']}", rep); return
+                ctx.case(["lae-family", fam["name"], k], nontrivial=True)
+                st = m.solver.get_model_status()
+                if not m.is_solved():
+                    if st == "kInfeasible":
+                        errlib.report(ctx, f"kLeastAbsErrorsCycles is infeasible on '{fam['name']}' (k={k}); k walks with zero weights exist within every repetition cap", rep,
+                                      "kLeastAbsErrorsCycles", args, m)
+                    else:
+                        ctx.count("E2_cyclic_family", "inconclusive:" + str(st))
+                    return
+                so = check_solution(ctx, "kLeastAbsErrorsCycles", args, m, fam["weight_type"] == int, eng="E2_cyclic_family")
+                if so is None:
+                    return
+                if abs(so - float(fam["lae_opt"])) > 1e-6:
+                    sol = m.get_solution()
+                    rep["solution"] = {"walks": sol["walks"], "weights": sol["weights"]}
+                    errlib.report(ctx, f"kLeastAbsErrorsCycles on '{fam['name']}' (k={k}) returns total error {so}, the optimum is {fam['lae_opt']}", rep,
                                   "kLeastAbsErrorsCycles", args, m)
                 else:
-                    ctx.count("E2_cyclic_family", "inconclusive:" + str(st))
-                continue
-            so = check_solution(ctx, "kLeastAbsErrorsCycles", args, m, fam["weight_type"] == int, eng="E2_cyclic_family")
-            if so is None:
-                continue
-            if abs(so - float(fam["lae_opt"])) > 1e-6:
-                sol = m.get_solution()
-                rep["solution"] = {"walks": sol["walks"], "weights": sol["weights"]}
-                errlib.report(ctx, f"kLeastAbsErrorsCycles on '{fam['name']}' (k={k}) returns total error {so}, the optimum is {fam['lae_opt']}", rep,
-                              "kLeastAbsErrorsCycles", args, m)
-            else:
-                ctx.count("E2_cyclic_family", "optimum_agrees")
+                    ctx.count("E2_cyclic_family", "optimum_agrees")
+            errlib.guarded(ctx, 'kLeastAbsErrorsCycles', f"{fam['name']} k={k}", _one)
 
 
 def G_has_cycle(G):
@@ -303,8 +312,8 @@ def run(ctx):
             wfun(ctx)
         except Exception as e:
             ctx.report(f"{wfun.__name__}: the recorded witness instance raised {e!r}", {"witness": wfun.__name__})
-    run_dag(ctx, ctx.budget(300, 6000), tiny=False)
-    run_dag(ctx, ctx.budget(200, 5000), tiny=True)
+    run_dag(ctx, ctx.budget(240, 6000), tiny=False)
+    run_dag(ctx, ctx.budget(160, 5000), tiny=True)
     run_family(ctx)
     run_cyclic(ctx, ctx.budget(60, 1500))
     import e1werr   # E1_cycles: LP of kLeastAbsErrorsCycles == WalkErrEnc.encode_klae_cycles (harness/e1werr.py)
